@@ -280,6 +280,11 @@ where
         for i in 0..num_of_nodes {
             for j in 0..num_of_nodes {
                 if let Some(dist) = m_dist {
+                    // `max()` stands for "no path": it must not take part in sums
+                    // (max() + negative cost would look like a finite distance)
+                    if dist[i][k] == K::max() || dist[k][j] == K::max() {
+                        continue;
+                    }
                     let (result, overflow) = dist[i][k].overflowing_add(dist[k][j]);
                     if !overflow && dist[i][j] > result {
                         dist[i][j] = result;
